@@ -251,6 +251,11 @@ func checkC12(c *Ctx) {
 	} else {
 		r.Bad("C12.termination", "recursion:$include", "-", why)
 	}
+	if good, why := includeLinear(p); good {
+		r.OK("C12.termination", "recursion:$include-linear", "-", "a too-deep error ends every enclosing Parse loop: at most maxIncludeDepth+1 nested parses")
+	} else {
+		r.Bad("C12.termination", "recursion:$include-linear", "-", why)
+	}
 	// any other cycle among the parser functions
 	{
 		in := map[*ssa.Function]bool{}
